@@ -402,6 +402,9 @@ var IndentFunc = function.New(&function.Spec{
 		if err := gocty.FromCtyValue(args[0], &spaces); err != nil {
 			return cty.UnknownVal(cty.String), err
 		}
+		if spaces < 0 {
+			return cty.UnknownVal(cty.String), function.NewArgErrorf(0, "the number of spaces must not be negative")
+		}
 		data := args[1].AsString()
 		pad := strings.Repeat(" ", spaces)
 		return cty.StringVal(strings.Replace(data, "\n", "\n"+pad, -1)), nil
